@@ -51,16 +51,37 @@ def fragmentsOnCompositeTypes : Rule :=
        | none => [])
     | _ => []
 
+structure UnusedState where
+  cur : Option Name := none                     -- current_fragment
+  opSpreads : List Name := []                   -- spreads_in_operations
+  fragSpreads : List (Name × List Name) := []   -- spreads_in_fragments
+  deriving Inhabited
+
+def fragSucc (fragSpreads : List (Name × List Name)) (n : Name) : List Name := (alGet fragSpreads n).getD []
+
+def unusedFuel (st : UnusedState) : Nat :=
+  st.opSpreads.length + (st.fragSpreads.map fun p => p.2.length).sum + 1
+
+/-- `mark_used` from every spread within an operation -/
+def UnusedState.used (st : UnusedState) : Reach Name :=
+  st.opSpreads.foldl (fun r n => dfs (fragSucc st.fragSpreads) (unusedFuel st) n r) {}
+
 def noUnusedFragments : Rule where
-  σ := List Name
-  init := []
-  on := fun _ d used e =>
+  σ := UnusedState
+  init := {}
+  on := fun _ d st e =>
     match e.1 with
-    | .enter (.spread sp) => (used ++ [sp.name], [])
+    | .enter (.fragmentDef f) => ({ st with cur := some f.name }, [])
+    | .leave (.fragmentDef _) => ({ st with cur := none }, [])
+    | .enter (.spread sp) =>
+      (match st.cur with
+       | some f => ({ st with fragSpreads := alUpdate st.fragSpreads f [] (· ++ [sp.name]) }, [])
+       | none => ({ st with opSpreads := st.opSpreads ++ [sp.name] }, []))
     | .leave (.document _) =>
-      (used, (d.fragNames.filter fun n => !used.contains n).map fun n =>
+      let used := st.used.visited
+      (st, (d.fragNames.filter fun n => !used.contains n).map fun n =>
         ⟨.noUnusedFragments, [], .unusedFragment n⟩)
-    | _ => (used, [])
+    | _ => (st, [])
 
 /-! ### no_fragments_cycle -/
 
@@ -75,6 +96,18 @@ def cycleError (spreadName : Name) (cyclePath : List SpreadNode) : Err :=
   ⟨.noFragmentsCycle, cyclePath.map (·.pos),
     if via.isEmpty then .cycleSelf spreadName else .cycleVia spreadName via⟩
 
+/-- one spread of the fragment being scanned: a spread of a fragment on the current path is a
+    cycle; otherwise descend into its definition (`recur`), if there is one -/
+def cycleStep (d : Document)
+    (recur : FragDef → List SpreadNode → List (Name × Nat) → CycleState → CycleState)
+    (path : List SpreadNode) (idx' : List (Name × Nat)) (st : CycleState) (sp : SpreadNode) : CycleState :=
+  match alGet idx' sp.name with
+  | none =>
+    (match d.fragByName sp.name with
+     | some fd => recur fd (path ++ [sp]) idx' st
+     | none => st)
+  | some ci => { st with errs := st.errs ++ [cycleError sp.name ((path ++ [sp]).drop ci)] }
+
 /-- `detect_cycles`; `path` = `spread_paths`, `idx` = `spread_path_index_by_name` (both restored by
     the Rust code on the way back, so they are passed down by value).  Fuel bounds the depth. -/
 def detectCycles (d : Document) : Nat → FragDef → List SpreadNode → List (Name × Nat) → CycleState → CycleState
@@ -85,16 +118,7 @@ def detectCycles (d : Document) : Nat → FragDef → List SpreadNode → List (
       let st := { st with visited := frag.name :: st.visited }
       let spreads := recursiveSpreads frag.sel
       if spreads.isEmpty then st
-      else
-        let idx' := alInsert idx frag.name path.length
-        spreads.foldl (fun st sp =>
-          let path' := path ++ [sp]
-          match alGet idx' sp.name with
-          | none =>
-            (match d.fragByName sp.name with
-             | some fd => detectCycles d n fd path' idx' st
-             | none => st)
-          | some ci => { st with errs := st.errs ++ [cycleError sp.name (path'.drop ci)] }) st
+      else spreads.foldl (cycleStep d (detectCycles d n) path (alInsert idx frag.name path.length)) st
 
 def noFragmentsCycle : Rule where
   σ := CycleState
